@@ -4,10 +4,10 @@ outer loop.  Transcribed from /repo as it is:
 
   kmip/services/server/session.py
     run                    l.93-124    -> `session`, `run`
-    _handle_message_loop   l.126-259   -> `handleMessage`
-    authenticate           l.261-322   -> `authLoop`, `authenticate`
-    _receive_request       l.324-331   -> `receiveRequest`
-    _receive_bytes         l.333-359   -> `recvLoop`, `finish`
+    _handle_message_loop   l.126-273   -> `handleMessage` (`evaluate`, `emit`, `sizeCheck`)
+    authenticate           l.275-336   -> `authLoop`, `authenticate`
+    _receive_request       l.338-345   -> `receiveRequest`
+    _receive_bytes         l.347-373   -> `recvLoop`, `finish`
   kmip/services/server/auth/utils.py
     get_certificate_from_connection          l.22-32   -> `Option Cert` (falsy => absent)
     get_extended_key_usage_from_certificate  l.35-45   -> `Cert.eku`
@@ -63,15 +63,15 @@ exception are dropped by the code; the model keeps them as `part` for the statem
 about the residue. -/
 inductive Recv where
   | ok (msg : Bytes)
-  | closed (part : Bytes)   -- exceptions.ConnectionClosed (l.345)
-  | short (part : Bytes)    -- ValueError (l.351)
+  | closed (part : Bytes)   -- exceptions.ConnectionClosed (l.359)
+  | short (part : Bytes)    -- ValueError (l.365)
   deriving Repr, DecidableEq, Inhabited
 
-/-- l.350-359: the check after the loop -/
+/-- l.364-373: the check after the loop -/
 def finish (size received : Nat) (msg : Bytes) : Recv :=
   if received ≠ size then .short msg else .ok msg
 
-/-- l.334-348: `while bytes_received < message_size: …` -/
+/-- l.348-362: `while bytes_received < message_size: …` -/
 def recvLoop (size received : Nat) (msg : Bytes) (c : Conn) : Recv × Conn :=
   if _h : received < size then
     match recv (min (size - received) maxBufferSize) c with
@@ -89,7 +89,7 @@ def recvBytes (size : Nat) (c : Conn) : Recv × Conn := recvLoop size 0 [] c
 /-- `struct.unpack('!I', bs)` for a 4-byte string -/
 def be32 (bs : Bytes) : Nat := bs.foldl (fun a b => a * 256 + b.toNat) 0
 
-/-- `_receive_request` (l.324-331): 8-byte header, length in bytes 4..7, then the payload. -/
+/-- `_receive_request` (l.338-345): 8-byte header, length in bytes 4..7, then the payload. -/
 def receiveRequest (c : Conn) : Recv × Conn :=
   match recvBytes 8 c with
   | (.ok header, c1) =>
@@ -252,12 +252,12 @@ def slugsAuthenticate (sl : Slugs) (url : Option String) (cert : Cert) : Option 
           | .invalid => none                         -- `.json()` / `.get` raised
           | .groups g => some ⟨some user, g⟩
 
-/-- l.271 -/
+/-- l.285 -/
 def Plugin.supported (p : Plugin) : Bool := "auth:slugs".isPrefixOf p.name
-/-- l.271-272: the plugin is tried -/
+/-- l.285-286: the plugin is tried -/
 def Plugin.active (p : Plugin) : Bool := p.supported && (p.enabled == some "True")
 
-/-- the `for auth_settings in self._auth_settings` loop (l.268-300); the Bool is `plugin_enabled` -/
+/-- the `for auth_settings in self._auth_settings` loop (l.282-314); the Bool is `plugin_enabled` -/
 def authLoop (sl : Slugs) (cert : Cert) : List Plugin → Bool → Option Identity × Bool
   | [], en => (none, en)
   | p :: ps, en =>
@@ -267,7 +267,7 @@ def authLoop (sl : Slugs) (cert : Cert) : List Plugin → Bool → Option Identi
       | none => authLoop sl cert ps true
     else authLoop sl cert ps en
 
-/-- `KmipSession.authenticate` (l.261-322); `none` = PermissionDenied("Authentication failed.") -/
+/-- `KmipSession.authenticate` (l.275-336); `none` = PermissionDenied("Authentication failed.") -/
 def authenticate (cfg : AuthCfg) (cert : Cert) : Option Identity :=
   match authLoop cfg.slugs cert cfg.plugins false with
   | (some id, _) => some id
@@ -383,9 +383,9 @@ def evaluate {Q R σ} (env : Env Q R σ) (cfg : SessionCfg) (peer : Option Cert)
       | some id =>
         match env.engine s req id with
         | (.ok r m v, s') =>
-          -- l.218 `if max_response_size:` — absent and 0 both keep the session default
+          -- `if max_response_size is not None:` — only an absent maximum keeps the session default
           let maxSize : Int := match m with
-            | some k => if k = 0 then cfg.maxResponseSize else k
+            | some k => k
             | none => cfg.maxResponseSize
           (⟨.normal r, maxSize, v, some req, some (req, id)⟩, s')
         | (.kmipError rsn, s') =>
@@ -394,20 +394,35 @@ def evaluate {Q R σ} (env : Env Q R σ) (cfg : SessionCfg) (peer : Option Cert)
           (⟨.error (env.version req) SRsn.generalFailure, cfg.maxResponseSize, cfg.defaultVer,
             some req, some (req, id)⟩, s')
 
-/-- l.239-259: encode, replace an oversized response, send -/
+/-- the size check and the send: `resp` was encoded to `n` bytes.  The replacement is not checked
+against the maximum again. -/
+def sizeCheck {Q R σ} (env : Env Q R σ) (m : Mid Q R) (resp : Response R) (n : Nat) : Outcome Q R :=
+  if (n : Int) > m.maxSize then
+    match m.request with
+    | none => ⟨none, m.engineCall⟩                      -- `request.request_header` is None: AttributeError
+    | some req =>
+      let r2 : Response R := .error (env.version req) SRsn.responseTooLarge
+      match env.encLen r2 m.kmipVersion with
+      | none => ⟨none, m.engineCall⟩                    -- this `write` is not guarded
+      | some _ => ⟨some r2, m.engineCall⟩
+  else ⟨some resp, m.engineCall⟩
+
+/-- encode (a response that cannot be written is replaced by a General Failure error carrying the
+request's version, written under the same KMIP version; that second `write` is not guarded),
+replace an oversized response, send.  The `request = none` branches (AttributeError on
+`request.request_header`) are reachable only if an error response cannot be written or exceeds
+the session maximum. -/
 def emit {Q R σ} (env : Env Q R σ) (m : Mid Q R) : Outcome Q R :=
   match env.encLen m.response m.kmipVersion with
-  | none => ⟨none, m.engineCall⟩                          -- `write` raised
-  | some n =>
-    if (n : Int) > m.maxSize then
-      match m.request with
-      | none => ⟨none, m.engineCall⟩                      -- `request.request_header` is None: AttributeError
-      | some req =>
-        let r2 : Response R := .error (env.version req) SRsn.responseTooLarge
-        match env.encLen r2 m.kmipVersion with
-        | none => ⟨none, m.engineCall⟩
-        | some _ => ⟨some r2, m.engineCall⟩              -- not checked against the maximum again
-    else ⟨some m.response, m.engineCall⟩
+  | some n => sizeCheck env m m.response n
+  | none =>                                               -- `write` raised
+    match m.request with
+    | none => ⟨none, m.engineCall⟩
+    | some req =>
+      let r1 : Response R := .error (env.version req) SRsn.generalFailure
+      match env.encLen r1 m.kmipVersion with
+      | none => ⟨none, m.engineCall⟩
+      | some n1 => sizeCheck env m r1 n1
 
 /-- `_handle_message_loop` after `_receive_request` returned `data` -/
 def handleMessage {Q R σ} (env : Env Q R σ) (cfg : SessionCfg) (peer : Option Cert) (s : σ) (data : Bytes) :
@@ -415,16 +430,26 @@ def handleMessage {Q R σ} (env : Env Q R σ) (cfg : SessionCfg) (peer : Option 
   (emit env (evaluate env cfg peer s data).1, (evaluate env cfg peer s data).2)
 
 /-- every branch of `emit` leaves the record of the engine call alone -/
+theorem sizeCheck_engineCall {Q R σ} (env : Env Q R σ) (m : Mid Q R) (resp : Response R) (n : Nat) :
+    (sizeCheck env m resp n).engineCall = m.engineCall := by
+  unfold sizeCheck
+  split
+  · split
+    · rfl
+    · dsimp only
+      split <;> rfl
+  · rfl
+
 theorem emit_engineCall {Q R σ} (env : Env Q R σ) (m : Mid Q R) : (emit env m).engineCall = m.engineCall := by
   unfold emit
   split
-  · rfl
+  · exact sizeCheck_engineCall ..
   · split
-    · split
-      · rfl
-      · dsimp only
-        split <;> rfl
     · rfl
+    · dsimp only
+      split
+      · rfl
+      · exact sizeCheck_engineCall ..
 
 /-! ## (d) the outer loop -/
 
